@@ -49,6 +49,8 @@ type CLI struct {
 	// StartMode: when set, every new connection starts a session of its own in this mode (nothing of the previous session -
 	// mode, pending question, half-typed line - survives)
 	StartMode string
+	// Return: the byte this device takes for the return key (0 = line feed; a console on a serial line wants a carriage return)
+	Return byte
 }
 
 // Start implements Reactor.
@@ -81,8 +83,13 @@ func (c *CLI) OnInput(b []byte) []byte {
 
 	var out bytes.Buffer
 
+	ret := c.Return
+	if ret == 0 {
+		ret = '\n'
+	}
+
 	for _, ch := range b {
-		if ch != '\n' {
+		if ch != ret {
 			c.line = append(c.line, ch)
 
 			if (c.Pending == nil || c.Pending.Echo) && !c.NoEcho {
